@@ -1,5 +1,6 @@
 import TenpyModel.MPS.TransformProofs2
 import TenpyModel.MPS.CellProofs
+import TenpyModel.MPS.InversionProofs
 /-!
 # C09 — MPS transformations implement the documented map on states
 
@@ -85,6 +86,18 @@ theorem C09_spatial_inversion_involutive (ss : List (RSite α)) (M : MPSM α) (h
     rw [hfb']
     show (if M.finiteBC then M.bond (M.L - (M.L - j)) else _) = M.bond j
     rw [hfb, e]; rfl
+
+/-- **`spatial_inversion` on the bookkeeping layer** (finite MPS, any stored forms, any bond
+dimensions): tensors transposed and reversed, form exponents swapped, singular values mirrored —
+the inverted MPS denotes the state with reversed configuration, with the same `norm`. -/
+theorem C09_spatial_inversion_state (M : MPSM α) (hbc : M.bc ≠ BC.infinite) (hL : 0 < M.L)
+    (hchain : ChainOK 1 ((List.range' 0 M.L).map M.plainSiteN))
+    (hlast : lastDim 1 ((List.range' 0 M.L).map M.plainSiteN) = 1)
+    (σ : List Nat) (hσ : σ.length = M.L) :
+    M.spatialInversion.toState σ.reverse = M.toState σ ∧ M.spatialInversion.norm = M.norm := by
+  refine ⟨?_, rfl⟩
+  simp only [toState, toStateN_spatialInversion M hbc hL hchain hlast σ hσ]
+  rfl
 
 /-- **`roll_mps_unit_cell(shift)`**: every `get_theta` window of the rolled infinite MPS starting
 at `i + shift` is the window of the original one starting at `i` — observables are unchanged up
